@@ -382,16 +382,6 @@ def _excluded(text, ctx):
         r = list(h5l.excluded(text, ctx))
         if text.startswith("\ufeff"):
             r.append("byte order mark (input-stream preprocessing, not tree construction)")
-        low = text.lower()
-        # reference bugs reported to the coordinator (html5lib 1.1 tables older than the current standard)
-        if "xml:base" in low:
-            r.append("html5lib still adjusts xml:base (row removed from 'adjust foreign attributes' in 2017)")
-        if any(a in low for a in ("contentscripttype", "contentstyletype", "externalresourcesrequired", "filterres")):
-            r.append("html5lib still adjusts four SVG attributes removed from the standard's table in 2017")
-        if "fedropshadow" in low:
-            r.append("html5lib's SVG tag-name table lacks feDropShadow")
-        if "&" in text and ("colgroup" in low or "frameset" in low or (ctx and ctx[1] in ("colgroup", "frameset"))):
-            r.append("frameset/colgroup + character references (mixed text runs hidden from h5l.excluded)")
         EXCLUDED[k] = r
     return EXCLUDED[k]
 
